@@ -38,7 +38,9 @@ UpdOpts ==
      U(<<>>, <<>>, <<>>, <<>>, <<2>>, <<>>),                  \* add a URI
      U(<<>>, <<>>, <<>>, <<>>, <<>>, <<1>>),                  \* remove a URI
      U(<<K(3, 2), K(2, 1)>>, <<1>>, <<K(1, 1)>>, <<2>>, <<1>>, <<2>>),   \* everything at once, disjoint ids
-     U(<<K(1, 3)>>, <<1>>, <<K(2, 2)>>, <<2>>, <<>>, <<>>)}   \* rotation keeping the id: removed, then added anew
+     U(<<K(1, 3)>>, <<1>>, <<K(2, 2)>>, <<2>>, <<>>, <<>>),   \* rotation keeping the id: removed, then added anew
+     \* one removal naming several entries that stand next to each other in the document (in and against document order)
+     U(<<>>, <<1, 3>>, <<>>, <<2, 1>>, <<>>, <<1, 2>>)}
 
 \* the document after an update: removals, then additions (an id both removed and added is added anew, at the end)
 ApplyUpdate(d, u) ==
